@@ -273,12 +273,47 @@ pub fn record(corpus_dir: &str, trace: &mut NdjsonWriter, out: &mut Outcome) {
             continue;
         }
         let any = samples.iter().any(|s| ["pre", "post", "se", "srs"].iter().any(|k| !s[*k].as_array().unwrap().is_empty()));
+        // the same thirteen texts side by side in ONE directory, through analyze_dir: what is reported for a file is
+        // a matter of that file's version alone, whatever the versions of its neighbours
+        let mut dir_samples: Vec<Value> = vec![];
+        {
+            let base = std::env::var("VERIF_SCRATCH").map(std::path::PathBuf::from).unwrap_or_else(|_| std::env::temp_dir());
+            let dir = base.join(format!("solstat-verif-c09-{}-{}", std::process::id(), out.evaluations));
+            let _ = std::fs::remove_dir_all(&dir);
+            if std::fs::create_dir_all(&dir).is_ok() {
+                for (i, v) in versions.iter().enumerate() {
+                    let op = samples[i]["op"].as_str().unwrap_or("");
+                    let _ = std::fs::write(dir.join(format!("V{:02}.sol", i)), with_version(&src, &spans, *v, op));
+                }
+                let names: Vec<String> = dets.iter().map(|d| d.name()).collect();
+                if let Ok(res) = crate::dirs::real_analyze_dir("optimizations", &dir, &names) {
+                    for (i, v) in versions.iter().enumerate() {
+                        let file = format!("V{:02}.sol", i);
+                        let lines_of = |d: &str| -> Value {
+                            let mut ls: Vec<i64> = vec![];
+                            if let Some(rows) = res[d].as_array() {
+                                for row in rows {
+                                    if row[0].as_str() == Some(file.as_str()) {
+                                        ls.extend(as_i64s(&row[1]));
+                                    }
+                                }
+                            }
+                            ls.sort();
+                            json!(ls)
+                        };
+                        dir_samples.push(json!({"ver": [v.0, v.1, v.2], "op": samples[i]["op"], "pre": lines_of(&names[0]), "post": lines_of(&names[1]),
+                                                "se": lines_of(&names[2]), "srs": lines_of(&names[3])}));
+                    }
+                }
+                let _ = std::fs::remove_dir_all(&dir);
+            }
+        }
         // the projected tree of the program as written; its lines are those of every sample when no replaced
         // directive spans a line break (a pragma line put in front of a file without one shifts them by one)
         let tree_ok = spans.iter().all(|(a, b)| !src[*a..*b].contains('\n'));
         let shift = if spans.is_empty() { 1 } else { 0 };
         let tree = if tree_ok { crate::project::project_source(&src).map(|t| t.to_json_with_lines(&src)) } else { None };
-        trace.push(&json!({"k": "program", "src": f.file_name().unwrap().to_string_lossy(), "samples": samples,
+        trace.push(&json!({"k": "program", "src": f.file_name().unwrap().to_string_lossy(), "samples": samples, "dir_samples": dir_samples,
                            "tree_ok": tree.is_some(), "shift": shift, "tree": tree.unwrap_or(json!([]))}));
         out.evaluations += 1;
         if any {
